@@ -60,12 +60,46 @@ def run_harness(ctx, binp, tag, args, timeout=900):
 
 
 def replay_seq(ctx, binp, cases, tag):
-    """run the given {glob, ops} cases on the current tree; returns (terms, jsons, err)"""
+    """run the given {glob, ops} cases on the current tree; returns (terms, jsons, err).  Cases
+    with "sparse": true are observed only at the points of their "plan" and at the end."""
     p = os.path.join(ctx.scratch, "in_%s.jsonl" % tag)
     with open(p, "w") as f:
         for c in cases:
-            f.write(json.dumps({"kind": c.get("kind", "replay"), "glob": c["glob"], "ops": c["ops"]}) + "\n")
+            d = {"kind": c.get("kind", "replay"), "glob": c["glob"], "ops": c["ops"]}
+            if c.get("sparse"):
+                d.update({"sparse": True, "plan": c.get("plan") or []})
+            f.write(json.dumps(d) + "\n")
     return run_harness(ctx, binp, tag, ["-mode", "replay", "-in", p])
+
+
+def judge_sparse(ctx, terms, tag, shard=40):
+    return ctx.judge_cases(HEADER, "lp_case", "lp_judge", terms, shard=shard, tag=tag)
+
+
+def minimise_sparse(ctx, binp, j, max_rounds=10):
+    """sparse cases: shortest failing prefix probed only at its end, then greedy removal of
+    single operations; falls back to the case as generated when the end-only form passes"""
+    cur = {"kind": j["kind"], "glob": j["glob"], "ops": j["ops"], "sparse": True, "plan": []}
+    best = j
+    cands = [dict(cur, ops=cur["ops"][:k]) for k in range(1, len(cur["ops"]) + 1)]
+    for rnd in range(max_rounds):
+        if not cands:
+            break
+        terms, jsons, err = replay_seq(ctx, binp, cands, "smin%d" % rnd)
+        if err:
+            break
+        bad, _, err = judge_sparse(ctx, terms, "smin%d" % rnd, shard=max(8, len(terms) // 8 + 1))
+        if err or not bad:
+            break
+        codes = dict(bad)
+        k = sorted(codes, key=lambda k: (codes[k] != 1, len(jsons[k]["ops"]), k))[0]
+        best = jsons[k]
+        best["kind"] = j["kind"] + "/minimised"
+        cur = dict(cur, glob=best["glob"], ops=best["ops"])
+        if len(cur["ops"]) <= 1:
+            break
+        cands = [dict(cur, ops=drop_op(cur["ops"], i)) for i in range(len(cur["ops"]))]
+    return best
 
 
 def drop_op(ops, i):
@@ -155,6 +189,19 @@ def spec_table(ctx, term_glob, term_ops, tag):
     if rc != 0:
         return None
     m = re.search(r"EXPECT\s*=\s*(.*?)\s*:\s*list", out, re.S)
+    return re.sub(r"\s+", " ", m.group(1)).replace("%N", "") if m else None
+
+
+def spec_final(ctx, term_glob, term_ops, tag):
+    """what the specification prescribes for every context after the whole history: per context
+    the entries captured at Debug, Info, Warn, Error (printed Coq term)"""
+    v = HEADER + "Set Printing Width 200.\nSet Printing Depth 100000.\n"
+    v += "Definition EXPECT := Eval vm_compute in (last (srun_obs (sinit (abs %s%%N)) %s%%N) []).\nPrint EXPECT.\n" % (
+        term_glob, term_ops)
+    rc, out = ctx.coq_eval("expectf_%s" % tag, v, timeout=120)
+    if rc != 0:
+        return None
+    m = re.search(r"EXPECT\s*=\s*(.*?)\s*:\s*(?:list|table)", out, re.S)
     return re.sub(r"\s+", " ", m.group(1)).replace("%N", "") if m else None
 
 
